@@ -16,3 +16,9 @@ Check c04_refused_claim_no_effect : forall st p ids st' e,
   provide_actuation st p ids = (st', inr e) -> st' = st.
 Check c04_failed_batch_no_effect : forall st p cs st' e,
   batch_actuate st p cs = (st', Some e) -> st' = st.
+Check c04_expired_token_changes_nothing : forall us db p now clock changed errs db' changed' errs' id e e',
+  expired p now = true ->
+  apply_updates db p now clock us changed errs = (db', changed', errs') ->
+  lookup_id (entries db) id = Some e -> lookup_id (entries db') id = Some e' -> e' = e.
+Check c04_expired_token_registers_nothing : forall db p now clock name dt ct et mn mx al db' r,
+  expired p now = true -> add_entry db p now clock name dt ct et mn mx al = (db', r) -> db' = db.
